@@ -301,7 +301,7 @@ func persistMergedRestField(segments []*Segment, dropsIn []*roaring.Bitmap, fiel
 		// can no longer optimize by copying, since chunk factor could have changed
 		lastDocNum, lastFreq, lastNorm, bufLoc, err = mergeTermFreqNormLocs(
 			fieldsMap, postItr, newDocNums[itrI], newRoaring,
-			tfEncoder, locEncoder, bufLoc, fieldDocTracking)
+			tfEncoder, locEncoder, bufLoc, fieldDocTracking, fieldFreqs, uint16(fieldID))
 
 		if err != nil {
 			return err
@@ -441,7 +441,6 @@ func prepareNewTerm(newSegDocCount uint64, chunkMode uint32, tfEncoder, locEncod
 			return err
 		}
 		newCard += pl.Count()
-		fieldFreqs[uint16(fieldID)] += newCard
 	}
 	// compute correct chunk size with this
 	var chunkSize uint64
@@ -557,7 +556,8 @@ const numUintsLocation = 4
 
 func mergeTermFreqNormLocs(fieldsMap map[string]uint16, postItr *PostingsIterator,
 	newDocNums []uint64, newRoaring *roaring.Bitmap,
-	tfEncoder, locEncoder *chunkedIntCoder, bufLoc []uint64, docTracking *roaring.Bitmap) (
+	tfEncoder, locEncoder *chunkedIntCoder, bufLoc []uint64, docTracking *roaring.Bitmap,
+	fieldFreqs map[uint16]uint64, fieldID uint16) (
 	lastDocNum, lastFreq, lastNorm uint64, bufLocOut []uint64, err error) {
 	next, err := postItr.Next()
 	for next != nil && err == nil {
@@ -570,6 +570,7 @@ func mergeTermFreqNormLocs(fieldsMap map[string]uint16, postItr *PostingsIterato
 		docTracking.Add(uint32(hitNewDocNum))
 
 		nextFreq := next.Frequency()
+		fieldFreqs[fieldID] += uint64(nextFreq)
 		nextNorm := uint64(math.Float32bits(float32(next.Norm())))
 
 		locs := next.Locations()
